@@ -1642,7 +1642,15 @@ class Interp:
         if a.k == 'str' or b.k == 'str':
             if a.k == 'none' or b.k == 'none':
                 return z3.BoolVal(False)
-            raise Unsupported('`is` on strings')
+            # strings have no identity in the model: `is` between strings is read as equality
+            # (contract text only; pydbml itself compares strings with `is` nowhere)
+            if a.k == 'str' and b.k == 'str':
+                return a.e == b.e
+            if a.k == 'val':
+                return z3.And(Val.is_s(a.e), Val.sv(a.e) == b.e)
+            if b.k == 'val':
+                return z3.And(Val.is_s(b.e), Val.sv(b.e) == a.e)
+            return z3.BoolVal(False)
         if a.k in ('tuple',) or b.k in ('tuple',):
             raise Unsupported('`is` on tuples')
         if a.k == 'exc' or b.k == 'exc':
